@@ -15,6 +15,8 @@ Modelling decisions (each is a representation choice, not a behaviour change):
   truncated `Nat` subtraction is exact.
 * `rangeEncoder.low : uint64` is a `Nat` (< 2^33 always, see `Props/C17.lean`), `pendingExtra : uint64`
   a `Nat` (one increment per output byte; 2^64 is unreachable).
+* `x << k` on `Nat` is written `x * 2^k` (with the `% 2^32` / `% 2^64` truncation where Go truncates):
+  the Lean runtime's `Nat.shiftLeft` always takes the big-number path, the product does not.
 * `crc32.ChecksumIEEE` is `crc32` below (reflected table-driven CRC-32, polynomial 0xEDB88320).
 * errors are the enum `Err`.
 -/
@@ -48,11 +50,8 @@ def crcUpdate (c : UInt32) (b : UInt8) : UInt32 :=
 
 def crc32 (bs : List UInt8) : UInt32 := (bs.foldl crcUpdate 0xFFFFFFFF) ^^^ 0xFFFFFFFF
 
-def crc32Arr (bs : Array UInt8) (start : Nat := 0) : UInt32 := Id.run do
-  let mut c : UInt32 := 0xFFFFFFFF
-  for i in [start:bs.size] do
-    c := crcUpdate c (bs.getD i 0)
-  return c ^^^ 0xFFFFFFFF
+/-- `crc32.ChecksumIEEE(dst[start:])` -/
+def crc32Arr (bs : Array UInt8) (start : Nat := 0) : UInt32 := crc32 (bs.toList.drop start)
 
 /-- the four `uint8(checksum>>0), uint8(checksum>>8), …` bytes -/
 def le32 (c : UInt32) : List UInt8 :=
@@ -111,19 +110,19 @@ def RangeEncoder.shiftLow (e : RangeEncoder) : RangeEncoder :=
     { dst := pushN (e.dst.push (e.pendingHead + 0x00)) 0xFF e.pendingExtra
       pendingHead := (e.low >>> 24).toUInt8
       pendingExtra := 0
-      low := (e.low <<< 8) &&& 0xFFFFFFFF
+      low := (e.low * 256) % 4294967296
       width := e.width }
   else if e.low < 0x100000000 then
     { dst := e.dst
       pendingHead := e.pendingHead
       pendingExtra := e.pendingExtra + 1
-      low := (e.low <<< 8) &&& 0xFFFFFFFF
+      low := (e.low * 256) % 4294967296
       width := e.width }
   else
     { dst := pushN (e.dst.push (e.pendingHead + 0x01)) 0x00 e.pendingExtra
       pendingHead := (e.low >>> 24).toUInt8
       pendingExtra := 0
-      low := (e.low <<< 8) &&& 0xFFFFFFFF
+      low := (e.low * 256) % 4294967296
       width := e.width }
 
 def probBits : Nat := 11
@@ -150,8 +149,8 @@ def decodeBit (p : Nat) (d : RangeDecoder) : Option (Nat × Nat × RangeDecoder)
     match d.src with
     | [] => none
     | s :: rest =>
-      some (r.1, r.2.1, { src := rest, bits := ((r.2.2.1 <<< 8) % 4294967296) ||| s.toNat,
-                          width := (r.2.2.2 <<< 8) % 4294967296 })
+      some (r.1, r.2.1, { src := rest, bits := ((r.2.2.1 * 256) % 4294967296) ||| s.toNat,
+                          width := (r.2.2.2 * 256) % 4294967296 })
   else
     some (r.1, r.2.1, { src := d.src, bits := r.2.2.1, width := r.2.2.2 })
 
@@ -163,7 +162,7 @@ def encodeBit (p : Nat) (e : RangeEncoder) (bitValue : Nat) : Nat × RangeEncode
     if bitValue = 0 then { e with width := threshold }
     else { e with low := e.low + threshold, width := e.width - threshold }
   if e1.width < 16777216 then
-    (p', RangeEncoder.shiftLow { e1 with width := (e1.width <<< 8) % 4294967296 })
+    (p', RangeEncoder.shiftLow { e1 with width := (e1.width * 256) % 4294967296 })
   else
     (p', e1)
 
@@ -176,7 +175,7 @@ def decodeByteLoop (base : Nat) : Nat → Nat → Array Nat → RangeDecoder →
     match decodeBit (probs.getD (base + index) probHalf) d with
     | none => none
     | some (bitValue, p', d') =>
-      decodeByteLoop base n ((index <<< 1) ||| bitValue) (probs.setIfInBounds (base + index) p') d'
+      decodeByteLoop base n ((index * 2) ||| bitValue) (probs.setIfInBounds (base + index) p') d'
 
 /-- `func (p *byteProbs) decodeByte(rDec *rangeDecoder)`; `byte(index)` drops the leading 1 bit. -/
 def decodeByte (probs : Array Nat) (base : Nat) (d : RangeDecoder) :
@@ -192,7 +191,7 @@ def encodeByteLoop (base : Nat) (b : Nat) : Nat → Nat → Array Nat → RangeE
   | i + 1, index, probs, e =>
     let bitValue := (b >>> i) &&& 1
     let r := encodeBit (probs.getD (base + index) probHalf) e bitValue
-    encodeByteLoop base b i ((index <<< 1) ||| bitValue) (probs.setIfInBounds (base + index) r.1) r.2
+    encodeByteLoop base b i ((index * 2) ||| bitValue) (probs.setIfInBounds (base + index) r.1) r.2
 
 /-- `func (p *byteProbs) encodeByte(rEnc *rangeEncoder, byteValue byte)` -/
 def encodeByte (probs : Array Nat) (base : Nat) (e : RangeEncoder) (byteValue : UInt8) :
@@ -434,7 +433,8 @@ def decodeXz (dst0 : Array UInt8) (src0 : List UInt8) : Array UInt8 × List UInt
           -- Decode the index.
           let srcCheckpoint1 := src
           match src with
-          | 0x00 :: 0x01 :: src2 =>
+          | i0 :: i1 :: src2 =>
+            if i0 ≠ 0x00 ∨ i1 ≠ 0x01 then (dst, src, .invalidXz) else
             match decodeUvarint src2 with
             | (src3, unpaddedSizeHave, ok) =>
               if ¬ ok ∨ unpaddedSizeHave ≠ unpaddedSizeWant then (dst, src3, .invalidXz)
